@@ -115,33 +115,43 @@ def roundtrip_units():
 
 def coproc_unit():
     """Coproc_Accepted() for the generic coprocessors (p0-p9, p12, p13): the access-control registers NSACR and CPACR
-    decide, by privilege and security state, whether the instruction is UNDEFINED; only accepted instructions reach
-    the (mock) coprocessor decode.  Without Virtualization Extensions (HCPTR traps not covered)."""
-    from pyvc.unit import Unit, values_eq
+    decide, by privilege and security state, whether the instruction is UNDEFINED; with the Virtualization Extensions
+    CPACR does not apply in Hyp mode and HCPTR.TCP<n> traps a Non-secure access to Hyp mode (UNDEFINED when already in
+    Hyp mode).  Only accepted instructions reach the (mock) coprocessor decode.  HSR: exception class 0x07 and the
+    coprocessor number are checked, the remaining syndrome bits are left to WriteHSR()."""
+    from pyvc.unit import Unit, Contract, values_eq
     from pyvc.interp import PyRaise
     from pyvc import sym
     from pyvc.sym import lor, ite
     from spec.rt import bit
+    from spec import exceptions as EXC
     from . import machine as MC
     m = registry.mods()
     A = m.arm_v6.ArmV6
+    Rg = m.registers.Registers
     UND = m.arm_exceptions.UndefinedInstructionException
     uid = 'C12/fn:%s.ArmV6.coproc_accepted[generic coprocessors]' % A.__module__
 
-    def spec_denied(st, cp):
+    def spec_gate(st, cp):
         mode = bits(st['cpsr'], 4, 0)
-        secure = lor(lnot(st['cfg.have_security_ext']), bit(st['scr'], 0) == 0, mode == ST.MON)
-        ns_denied = land(st['cfg.have_security_ext'], lnot(secure), ((st['nsacr'] >> cp) & 1) == 0)
+        sec_ext, virt = st['cfg.have_security_ext'], st['cfg.have_virt_ext']
+        secure = lor(lnot(sec_ext), bit(st['scr'], 0) == 0, mode == ST.MON)
+        is_hyp = mode == ST.HYP
+        ns_denied = land(sec_ext, lnot(secure), ((st['nsacr'] >> cp) & 1) == 0)
+        applies = lor(lnot(virt), lnot(is_hyp))
         field = (st['cpacr'] >> (2 * cp)) & 3
-        denied = lor(ns_denied, field == 0, land(field == 1, mode == ST.USR))
-        unpred = land(lnot(ns_denied), field == 2)
-        return denied, unpred
+        cp_denied = land(applies, lor(field == 0, land(field == 1, mode == ST.USR)))
+        unpred = land(lnot(ns_denied), applies, field == 2)
+        denied = lor(ns_denied, cp_denied)
+        trap = land(lnot(denied), sec_ext, virt, lnot(secure), ((st['hcptr'] >> cp) & 1) == 1)
+        return {'undef': lor(denied, land(trap, is_hyp)), 'trap': land(trap, lnot(is_hyp)), 'unpred': unpred}
 
     def symbolic(eng):
-        mach = MC.SymMachine(eng, 'PMSA', 1, cfg_fixed={'have_virt_ext': False})
+        mach = MC.SymMachine(eng, 'PMSA', 1)
         init = dict(mach.init)
         cfg = mach.configs
         eng.assume(lnot(ST.bad_mode(bits(init['cpsr'], 4, 0), cfg['have_security_ext'], cfg['have_virt_ext'])))
+        eng.assume(valid(init))
         cp = eng.fresh_int('cp_num', 4)
         eng.assume(land(cp != 10, cp != 11, cp != 14, cp != 15))
         instr = eng.fresh_int('instr', 32)
@@ -151,24 +161,46 @@ def coproc_unit():
         contracts.update(registry.l1())
         contracts.update(registry.regview())
         contracts.update(registry.l2())
+        trapped = eng.register([])
+
+        def rec(e, *a):
+            trapped.append(1)
+            return e.run_function(Rg.take_hyp_trap_exception, list(a), {})
+        contracts[Rg.take_hyp_trap_exception] = Contract(Rg.take_hyp_trap_exception, rec, engine=True)
         eng.contracts = contracts
         raised = None
         try:
             eng.call(A.coproc_accepted, [mach.cpu, cp, instr])
         except PyRaise as e:
             raised = e.exc.cls
-        denied, unpred = spec_denied(init, cp)
+        g = spec_gate(init, cp)
+        final = mach.read()
         if raised is not None and issubclass(raised, UND):
-            eng.oblige('post', 'UNDEFINED only when NSACR / CPACR deny the access for this privilege and security state', lor(unpred, denied))
-        elif raised is not None and issubclass(raised, NotImplementedError):
-            eng.oblige('post', 'the coprocessor (mock decode) is reached only when the access is permitted', lor(unpred, lnot(denied)))
+            eng.oblige('post', 'UNDEFINED only when NSACR / CPACR deny the access for this privilege and security state, or HCPTR traps it in Hyp mode',
+                       lor(g['unpred'], g['undef']))
+            exp = dict(init)
+            exp['hsr'] = final['hsr']
+            eng.oblige_all('frame', 'a rejected access changes no state (but the syndrome register when HCPTR traps it)',
+                           [(k, values_eq(v, exp[k])) for k, v in final.items()])
+            eng.oblige('post', 'HSR is written only for a trapped access', lor(g['unpred'], values_eq(final['hsr'], init['hsr']),
+                                                                              land(bits(final['hsr'], 31, 26) == 0b000111, bits(final['hsr'], 3, 0) == cp)))
+        elif raised is not None and issubclass(raised, NotImplementedError) and not trapped:
+            eng.oblige('post', 'the coprocessor (mock decode) is reached without a trap only when the access is permitted and not trapped',
+                       lor(g['unpred'], land(lnot(g['undef']), lnot(g['trap']))))
+            eng.oblige_all('frame', 'the access check changes no state', [(k, values_eq(v, init[k])) for k, v in final.items()])
+        elif raised is not None and issubclass(raised, NotImplementedError) and len(trapped) == 1:
+            eng.oblige('post', 'the Hyp trap is taken only for a Non-secure access outside Hyp mode that HCPTR.TCP<n> traps', lor(g['unpred'], g['trap']))
+            eng.oblige('post', 'the syndrome names the trapped coprocessor access (EC 0x07, coprocessor number)',
+                       lor(g['unpred'], land(bits(final['hsr'], 31, 26) == 0b000111, bits(final['hsr'], 3, 0) == cp)))
+            exp = dict(init)
+            exp['hsr'] = final['hsr']
+            EXC.take_hyp_trap(exp)
+            eng.oblige_all('post', 'the trap entry is the architectural Hyp trap entry', [(k, lor(g['unpred'], values_eq(v, exp[k]))) for k, v in final.items()])
         else:
-            eng.oblige('safe.host', 'coproc_accepted ends in %s' % getattr(raised, '__name__', 'a normal return'), False)
-            return
-        eng.oblige_all('frame', 'the access check changes no state', [(k, values_eq(v, init[k])) for k, v in mach.read().items()])
+            eng.oblige('safe.host', 'coproc_accepted ends in %s (%d Hyp traps)' % (getattr(raised, '__name__', 'a normal return'), len(trapped)), False)
 
     def replay(inputs, ob):
-        cpu = MC.native_cpu('PMSA', 1, overrides={'have_virt_ext': False}, fresh=True)
+        cpu = MC.native_cpu('PMSA', 1, fresh=True)
         MC.install_native(cpu, dict(inputs), 'PMSA', 1)
         init = MC.read_native(cpu, 'PMSA', 1)
         cfgs = registry.mods().configurations.configurations.configs
@@ -176,6 +208,9 @@ def coproc_unit():
             init['cfg.' + k] = cfgs.get(k)
         cp, instr = inputs.get('cp_num', 0), inputs.get('instr', 0)
         got = 'returned'
+        trapped = []
+        real_trap = cpu.registers.take_hyp_trap_exception
+        cpu.registers.take_hyp_trap_exception = lambda: (trapped.append(1), real_trap())[1]
         import io
         import contextlib
         try:
@@ -183,15 +218,16 @@ def coproc_unit():
                 cpu.coproc_accepted(cp, instr)
         except Exception as e:      # noqa
             got = type(e).__name__
-        denied, unpred = spec_denied(init, cp)
-        text = 'coproc_accepted(p%d) mode=%s scr=%s nsacr=%s cpacr=%s: real %s ; architecture %s%s' % (
-            cp, hex(init['cpsr'] & 31), hex(init['scr']), hex(init['nsacr']), hex(init['cpacr']), got,
-            'UNDEFINED' if denied else 'accepted', ' (UNPREDICTABLE CPACR field)' if unpred else '')
-        if unpred:
+        g = spec_gate(init, cp)
+        want = 'UNDEFINED' if g['undef'] else ('Hyp trap' if g['trap'] else 'accepted')
+        real = 'UNDEFINED' if got == 'UndefinedInstructionException' else (('Hyp trap' if trapped else 'accepted') if got == 'NotImplementedError' else got)
+        text = 'coproc_accepted(p%d) mode=%s scr=%s nsacr=%s cpacr=%s hcptr=%s: real %s ; architecture %s%s' % (
+            cp, hex(init['cpsr'] & 31), hex(init['scr']), hex(init['nsacr']), hex(init['cpacr']), hex(init['hcptr']), real, want,
+            ' (UNPREDICTABLE CPACR field)' if g['unpred'] else '')
+        if g['unpred']:
             return False, text
-        return (got == 'UndefinedInstructionException') != bool(denied), text
-
-    return Unit(uid, ['C12'], symbolic, replay, {'contracts': {}}, meta={'function': '%s.ArmV6.coproc_accepted' % A.__module__})
+        return real != want, text
+    return Unit(uid, ['C12', 'C19'], symbolic, replay, {'contracts': {}}, meta={'function': '%s.ArmV6.coproc_accepted' % A.__module__})
 
 
 def units(tier):
